@@ -35,6 +35,9 @@ pub struct CliOut {
     /// output cap exceeded (process killed)
     pub flooded: bool,
     pub wall: f64,
+    /// CPU seconds (user + system) of the child, sampled from /proc while it ran (10 ms ticks; insensitive to how
+    /// loaded the machine is, unlike `wall`)
+    pub cpu: f64,
 }
 impl CliOut {
     pub fn panicked(&self) -> bool {
@@ -109,7 +112,7 @@ pub fn run_cli_path(path: &str, o: &CliOpts) -> CliOut {
     let mut child = match cmd.spawn() {
         Ok(c) => c,
         Err(e) => {
-            return CliOut { stdout: vec![], stderr: format!("spawn failed: {}", e).into_bytes(), code: None, signal: None, timed_out: true, flooded: false, wall: 0.0 }
+            return CliOut { stdout: vec![], stderr: format!("spawn failed: {}", e).into_bytes(), code: None, signal: None, timed_out: true, flooded: false, wall: 0.0, cpu: 0.0 }
         }
     };
     let stdin = child.stdin.take();
@@ -161,7 +164,26 @@ pub fn run_cli_path(path: &str, o: &CliOpts) -> CliOut {
         buf
     });
     let mut timed_out = false;
+    let pid = child.id();
+    let mut cpu = 0.0f64;
+    let sample_cpu = |cpu: &mut f64| {
+        if let Ok(t) = std::fs::read_to_string(format!("/proc/{}/stat", pid)) {
+            if let Some(p) = t.rfind(')') {
+                let f: Vec<&str> = t[p + 1..].split_whitespace().collect();
+                // after the command name: state ppid ... utime is the 12th, stime the 13th field
+                if f.len() > 12 {
+                    if let (Ok(u), Ok(s)) = (f[11].parse::<f64>(), f[12].parse::<f64>()) {
+                        let v = (u + s) / 100.0;
+                        if v > *cpu {
+                            *cpu = v;
+                        }
+                    }
+                }
+            }
+        }
+    };
     let status = loop {
+        sample_cpu(&mut cpu);
         match child.try_wait() {
             Ok(Some(s)) => break Some(s),
             Ok(None) => {
@@ -193,7 +215,7 @@ pub fn run_cli_path(path: &str, o: &CliOpts) -> CliOut {
         }
         None => (None, None),
     };
-    CliOut { stdout, stderr, code, signal, timed_out, flooded: fl, wall: t0.elapsed().as_secs_f64() }
+    CliOut { stdout, stderr, code, signal, timed_out, flooded: fl, wall: t0.elapsed().as_secs_f64(), cpu }
 }
 
 // ---------------------------------------------------------------------------------------
